@@ -12,6 +12,10 @@ def ttName : TT → String
   | .loopBreak => "LoopBreak" | .loopEnd => "LoopEnd" | .harmonyBegin => "HarmonyBegin" | .harmonyEnd => "HarmonyEnd"
   | .div => "Div" | .sub => "Sub" | .playFromHere => "PlayFromHere" | .comment => "Comment"
   | .track => "Track" | .channel => "Channel" | .trackSync => "TrackSync" | .tokens => "Tokens" | .constInt => "ConstInt" | .other => "Other"
+  | .keyShift => "KeyShift" | .trackKey => "TrackKey" | .keyFlag => "KeyFlag" | .useKeyShift => "UseKeyShift" | .tieMode => "TieMode"
+  | .songVelocityAdd => "SongVelocityAdd" | .songQAdd => "SongQAdd" | .measureShift => "MeasureShift" | .voice => "Voice"
+  | .controlChange => "ControlChange" | .pitchBend => "PitchBend" | .tempo => "Tempo" | .timeSignature => "TimeSignature" | .time => "Time"
+  | .playFrom => "PlayFrom" | .timeBase => "TimeBase"
   | .octaveRandom => "OctaveRandom" | .qlenRandom => "QLenRandom" | .velocityRandom => "VelocityRandom" | .timingRandom => "TimingRandom"
 
 partial def svStr : SV → String
